@@ -12,15 +12,17 @@ Section Fix.
   Lemma settle_pending_off r k e : c_fix_moveout C = false -> settle_pending C r k e = (r, k).
   Proof. intros H. unfold settle_pending. now rewrite H. Qed.
 
-  (* the matching IN_MOVED_TO arrives: the candidate is dropped, nothing else changes *)
+  (* the matching IN_MOVED_TO arrives in a directory the reader watches: the candidate is dropped, nothing else changes *)
   Lemma settle_pending_match r k e c p :
     c_fix_moveout C = true -> pend r = Some (c, p) -> is_moved_to (k_mask e) = true -> k_cookie e = c ->
+    amem N.eqb (k_wd e) (pfw r) = true ->
     settle_pending C r k e = ({| wfp := wfp r; pfw := pfw r; mvf := mvf r; calls := calls r; pend := None |}, k).
-  Proof. intros Hf Hp Hm Hc. unfold settle_pending. rewrite Hf, Hp, Hm, Hc, N.eqb_refl. reflexivity. Qed.
+  Proof. intros Hf Hp Hm Hc Hw. unfold settle_pending. rewrite Hf, Hp, Hm, Hc, N.eqb_refl, Hw. reflexivity. Qed.
 
-  (* anything else arrives: the directory has left the tree *)
+  (* anything else arrives (also: the second half through a descriptor the reader has forgotten): the directory has left *)
   Lemma settle_pending_forget r k e c p :
-    c_fix_moveout C = true -> pend r = Some (c, p) -> is_moved_to (k_mask e) && N.eqb (k_cookie e) c = false ->
+    c_fix_moveout C = true -> pend r = Some (c, p) ->
+    is_moved_to (k_mask e) && N.eqb (k_cookie e) c && amem N.eqb (k_wd e) (pfw r) = false ->
     settle_pending C r k e =
     forget_tree (wfp r) p {| wfp := wfp r; pfw := pfw r; mvf := mvf r; calls := calls r; pend := None |} k.
   Proof. intros Hf Hp Hm. unfold settle_pending. rewrite Hf, Hp, Hm. reflexivity. Qed.
